@@ -151,6 +151,14 @@ def targs(func_text):
 
 def install(I):
     M = I.model
+    # schedule-replay hook points are no-ops for the analysis (they only exist in guard-on builds)
+    def hook_point(I, st, f, args, fr):
+        b = I.prog.find_fn(f)
+        if b is not None and 'label' in b.debug and len(b.args) == 1:
+            I.stats['allow_used'].add('verif_hooks::point (schedule-replay hook, no-op)')
+            return I.ret(st, UNIT)
+        return NotImplemented
+    I.override.append((re.compile(r'(^|::)point$'), hook_point))
 
     # ------------------------------------------------------------------ panics
     @M(r'(^|::)(panic_fmt|panic|panic_cold_explicit|panic_explicit|begin_panic|unwrap_failed|expect_failed|panic_display|panic_nounwind|unreachable_display|panic_const::\w+|panic_bounds_check|slice_index_fail|resume_unwind)$', 'core::panicking::*')
